@@ -28,8 +28,8 @@ ASSUMPTIONS = [
 HOOKS = ['op.return', 'wellformed.eval', 'constructor.eval']
 MIN_DISTINCT = {'quick': 800, 'thorough': 10000}
 N = {'quick': 1500, 'thorough': 40000}
-FACETS_REQUIRED = {t: ['op:' + k for k in ops.CORE_OPS] + ['file:ioapi',
-                                                          'file:core']
+FACETS_REQUIRED = {t: ['op:' + k for k in list(ops.CORE_OPS) +
+                       list(ops.FN_OPS)] + ['file:ioapi', 'file:core']
                    for t in ('quick', 'thorough')}
 
 
@@ -43,7 +43,10 @@ def gen(rng, idx, tier, seed):
     else:
         fs = {'core': gen_core.gen_filespec(rng)}
     return {'file': fs, 'prog_seed': int(rng.integers(1 << 30)),
-            'nops': int(rng.integers(1, 7))}
+            'nops': int(rng.integers(1, 7)),
+            # every third program of plain files mixes in the functional
+            # forms of core/_functions.py
+            'fn': bool(idx % 3 == 0 and 'core' in fs)}
 
 
 def build(fs):
@@ -134,4 +137,8 @@ def run(spec, res):
                      % (st.desc, '; '.join(bad[:5]), trace), op=st.op,
                      meta=st.meta, problems=bad[:8])
 
-    ops.run_program(f, spec['prog_seed'], spec['nops'], on_step=on_step)
+    allowed = None
+    if spec.get('fn'):
+        allowed = list(ops.CORE_OPS) + list(ops.FN_OPS) * 2
+    ops.run_program(f, spec['prog_seed'], spec['nops'], allowed=allowed,
+                    on_step=on_step)
